@@ -6,6 +6,9 @@
 //   sink file = a real tbox::log::AsyncFileSink writing under /tmp/C09-<pid>-<n>/ (removed at case end)
 // Never prints timestamps or OS thread ids (thread ids are mapped to thread tags).
 #include "vh.h"
+#include <dlfcn.h>
+#include <fcntl.h>
+#include <stdarg.h>
 #include <dirent.h>
 #include <sys/stat.h>
 #include <sys/syscall.h>
@@ -24,6 +27,54 @@
 #include <tbox/base/log_impl.h>
 #include <tbox/log/sink.h>
 #include <tbox/log/async_file_sink.h>
+#include <tbox/log/async_stdout_sink.h>
+#include <tbox/log/async_syslog_sink.h>
+#include <tbox/log/sync_stdout_sink.h>
+
+// ---- interposition: write(2) on log files may be cut short (fault plan), syslog is captured -------------
+namespace ip {
+typedef ssize_t (*write_t)(int, const void *, size_t);
+static write_t real_write() { static write_t f = (write_t)dlsym(RTLD_NEXT, "write"); return f; }
+static std::mutex mx;
+static std::vector<uint64_t> plan; static size_t plan_pos = 0; static uint64_t injected = 0;
+static std::string log_prefix;                         // only fds whose path starts with this are faulted
+static std::vector<std::pair<int, std::string>> sys_msgs;   // (priority, message)
+static void sys_add(int pri, const char *fmt, va_list ap) {
+    char small[512]; va_list ap2; va_copy(ap2, ap);
+    int n = vsnprintf(small, sizeof(small), fmt, ap);
+    std::string msg;
+    if (n >= (int)sizeof(small)) { std::vector<char> big(n + 1); vsnprintf(big.data(), big.size(), fmt, ap2); msg.assign(big.data(), n); }
+    else if (n >= 0) msg.assign(small, n);
+    va_end(ap2);
+    std::lock_guard<std::mutex> lk(mx); sys_msgs.emplace_back(pri, msg);
+}
+}
+extern "C" ssize_t write(int fd, const void *buf, size_t count) {
+    if (fd > 2 && count >= 2) {
+        std::unique_lock<std::mutex> lk(ip::mx);
+        if (ip::plan_pos < ip::plan.size() && !ip::log_prefix.empty()) {
+            char path[256]; std::string link = "/proc/self/fd/" + std::to_string(fd);
+            ssize_t n = readlink(link.c_str(), path, sizeof(path) - 1);
+            if (n > 0 && std::string(path, n).compare(0, ip::log_prefix.size(), ip::log_prefix) == 0) {
+                uint64_t v = ip::plan[ip::plan_pos++];
+                if (v > 0) { ++ip::injected; lk.unlock(); return ip::real_write()(fd, buf, std::min<uint64_t>(v, count - 1)); }
+            }
+        }
+    }
+    return ip::real_write()(fd, buf, count);
+}
+extern "C" void syslog(int pri, const char *fmt, ...) { va_list ap; va_start(ap, fmt); ip::sys_add(pri, fmt, ap); va_end(ap); }
+extern "C" void __syslog_chk(int pri, int, const char *fmt, ...) { va_list ap; va_start(ap, fmt); ip::sys_add(pri, fmt, ap); va_end(ap); }
+extern "C" void vsyslog(int pri, const char *fmt, va_list ap) { ip::sys_add(pri, fmt, ap); }
+extern "C" void __vsyslog_chk(int pri, int, const char *fmt, va_list ap) { ip::sys_add(pri, fmt, ap); }
+
+// protocol output: fd 1 belongs to the stdout sinks (redirected to a capture file); the protocol goes to the saved fd
+static int g_real_out = 1;
+static std::ostringstream OUT;
+static void flushOut() {
+    std::string d = OUT.str(); OUT.str(""); OUT.clear();
+    size_t p = 0; while (p < d.size()) { ssize_t n = ip::real_write()(g_real_out, d.data() + p, d.size() - p); if (n <= 0) break; p += n; }
+}
 
 namespace {
 
@@ -60,8 +111,12 @@ struct SinkSlot {
     bool is_file = false;
     std::unique_ptr<RecSink> rec;
     std::unique_ptr<tbox::log::AsyncFileSink> file;
+    std::unique_ptr<tbox::log::Sink> other;       // SyncStdoutSink / AsyncStdoutSink / AsyncSyslogSink
+    std::string kind;                             // rec file sout aout syslog
     std::string dir;
-    tbox::log::Sink *base() { return is_file ? (tbox::log::Sink *)file.get() : (tbox::log::Sink *)rec.get(); }
+    bool enabled = true, dirty = false;
+    tbox::log::Sink *base() { return other ? other.get() : is_file ? (tbox::log::Sink *)file.get() : (tbox::log::Sink *)rec.get(); }
+    bool fd1() const { return kind == "sout" || kind == "aout"; }
 };
 
 struct Msg { int t; int level; const char *mod, *func, *file; int line; char kind; uint64_t len, seed; };
@@ -75,7 +130,7 @@ std::map<long, int> g_tag;                  // OS tid -> thread tag
 std::vector<std::thread> g_threads;
 std::mutex g_mx; std::condition_variable g_cv;
 bool g_case_end = false; int g_go = 0; int g_done = 0;
-int g_run = 0; int g_case_no = 0; std::string g_base;
+int g_run = 0; int g_case_no = 0; std::string g_base; std::string g_cap_path;
 
 void rawSink(const LogContent *c, void *) { g_raw.push_back(capture(c)); }
 
@@ -104,12 +159,17 @@ void endCase() {
     g_raw.clear(); g_tag.clear(); g_pool.clear();
     if (!g_base.empty()) { rmrf(g_base); g_base.clear(); }
     LogSetMaxLength(100 << 10);
+    fflush(stdout);
+    if (g_real_out != 1) { if (ftruncate(1, 0) != 0) {} lseek(1, 0, SEEK_SET); }
+    std::lock_guard<std::mutex> lk(ip::mx);
+    ip::plan.clear(); ip::plan_pos = 0; ip::injected = 0; ip::sys_msgs.clear(); ip::log_prefix.clear();
 }
 void beginCase() {
     endCase();
     ++g_case_no;
     g_base = "/tmp/C09-" + std::to_string(getpid()) + "-" + std::to_string(g_case_no);
     mkdir(g_base.c_str(), 0700);
+    { std::lock_guard<std::mutex> lk(ip::mx); ip::log_prefix = g_base + "/s"; }
     g_raw_id = LogAddPrintfFunc(rawSink, nullptr);
 }
 
@@ -175,7 +235,18 @@ bool tsOk(const std::string &s) {   // "YYYY-mm-dd HH:MM:SS.uuuuuu"
 }
 
 // parse one rendered line (without '\n'); false = damaged
-bool parseLine(const std::string &l, int &tag, std::string &out, std::string &masked, long &adj) {
+bool parseLine(const std::string &l0, int &tag, std::string &out, std::string &masked, long &adj) {
+    // optional colour bracket  ESC[<code>m ... ESC[0m
+    std::string l = l0, colour = "-", pre, post;
+    if (l.size() >= 2 && l[0] == 27 && l[1] == '[') {
+        size_t m = l.find('m');
+        if (m == std::string::npos || m > 12) return false;
+        colour = l.substr(2, m - 2); pre = l.substr(0, m + 1);
+        if (l.size() < m + 1 + 4 || l.compare(l.size() - 4, 4, "\033[0m") != 0) return false;
+        post = "\033[0m";
+        l = l.substr(m + 1, l.size() - (m + 1) - 4);
+        if (colour.empty()) return false;
+    }
     if (l.size() < 31 || l[1] != ' ' || l[28] != ' ') return false;
     char lvl = l[0];
     std::string ts = l.substr(2, 26);
@@ -209,40 +280,20 @@ bool parseLine(const std::string &l, int &tag, std::string &out, std::string &ma
     if (!mid.empty()) { if (mid.back() != ' ') return false; text = mid.substr(0, mid.size() - 1); if (text.empty()) return false; }
     std::ostringstream o;
     o << tag << ' ' << lvl << ' ' << mod << ' ' << func << ' ' << file << ' ' << line << ' ' << text.size() << ' '
-      << fnv(text.data(), text.size()) << ' ' << (trunc ? 1 : 0) << ' ' << (tsOk(ts) ? 1 : 0);
+      << fnv(text.data(), text.size()) << ' ' << (trunc ? 1 : 0) << ' ' << (tsOk(ts) ? 1 : 0) << " c=" << colour;
     out = o.str();
     masked.clear();
     adj += (long)std::to_string(tag).size() - (long)tids.size();
     {
-        std::string m = l.substr(0, 2) + std::string(26, 'T') + " " + std::to_string(tag) + l.substr(29 + tids.size()) + "\n";
+        std::string m = pre + l.substr(0, 2) + std::string(26, 'T') + " " + std::to_string(tag) + l.substr(29 + tids.size()) + post + "\n";
         if (m.size() <= 200) masked = vh::hex(m);
     }
     return true;
 }
 
-void listFiles(int k, SinkSlot &s) {
-    struct Ent { std::string ts; long n; std::string path; };
-    std::vector<Ent> ents;
-    DIR *d = opendir(s.dir.c_str());
-    if (d) {
-        while (dirent *e = readdir(d)) {
-            std::string n = e->d_name; if (n == "." || n == "..") continue;
-            std::string q = s.dir + "/" + n; struct stat st;
-            if (lstat(q.c_str(), &st) != 0 || !S_ISREG(st.st_mode)) continue;     // skips the latest.log symlink
-            // p.<YYYYmmdd_HHMMSS>.<pid>.log[.N]
-            auto w = n; std::vector<std::string> parts; std::string cur;
-            for (char c : w) { if (c == '.') { parts.push_back(cur); cur.clear(); } else cur.push_back(c); }
-            parts.push_back(cur);
-            long idx = 0;
-            if (parts.size() == 5) idx = atol(parts[4].c_str());
-            ents.push_back({parts.size() > 1 ? parts[1] : "", idx, q});
-        }
-        closedir(d);
-    }
-    std::sort(ents.begin(), ents.end(), [](const Ent &a, const Ent &b) { return a.ts != b.ts ? a.ts < b.ts : a.n < b.n; });
-    for (size_t i = 0; i < ents.size(); ++i) {
-        std::ifstream f(ents[i].path, std::ios::binary);
-        std::string data((std::istreambuf_iterator<char>(f)), std::istreambuf_iterator<char>());
+void emitListing(int k, const std::vector<std::string> &files) {
+    for (size_t i = 0; i < files.size(); ++i) {
+        const std::string &data = files[i];
         // size as on disk, and size with every OS thread id replaced by its thread tag (what the model renders)
         long adj = (long)data.size();
         std::ostringstream body;
@@ -258,9 +309,57 @@ void listFiles(int k, SinkSlot &s) {
             }
             p = q + 1;
         }
-        std::cout << "F " << k << ' ' << i << ' ' << data.size() << ' ' << adj << "\n" << body.str();
+        OUT << "F " << k << ' ' << i << ' ' << data.size() << ' ' << adj << "\n" << body.str();
     }
-    std::cout << "P off " << k << " files=" << ents.size() << "\n";
+    { std::lock_guard<std::mutex> lk(ip::mx); OUT << "I " << ip::injected << "\n"; }
+    OUT << "P off " << k << " files=" << files.size() << "\n";
+}
+
+std::string slurp(const std::string &path) {
+    std::ifstream f(path, std::ios::binary);
+    return std::string((std::istreambuf_iterator<char>(f)), std::istreambuf_iterator<char>());
+}
+
+void listFiles(int k, SinkSlot &s) {
+    struct Ent { std::string ts; long n; std::string path; };
+    std::vector<Ent> ents;
+    DIR *d = opendir(s.dir.c_str());
+    if (d) {
+        while (dirent *e = readdir(d)) {
+            std::string n = e->d_name; if (n == "." || n == "..") continue;
+            std::string q = s.dir + "/" + n; struct stat st;
+            if (lstat(q.c_str(), &st) != 0 || !S_ISREG(st.st_mode)) continue;     // skips the latest.log symlink
+            // p.<YYYYmmdd_HHMMSS>.<pid>.log[.N]
+            std::vector<std::string> parts; std::string cur;
+            for (char c : n) { if (c == '.') { parts.push_back(cur); cur.clear(); } else cur.push_back(c); }
+            parts.push_back(cur);
+            long idx = 0;
+            if (parts.size() == 5) idx = atol(parts[4].c_str());
+            ents.push_back({parts.size() > 1 ? parts[1] : "", idx, q});
+        }
+        closedir(d);
+    }
+    std::sort(ents.begin(), ents.end(), [](const Ent &a, const Ent &b) { return a.ts != b.ts ? a.ts < b.ts : a.n < b.n; });
+    std::vector<std::string> files;
+    for (auto &e : ents) files.push_back(slurp(e.path));
+    emitListing(k, files);
+}
+
+// stdout sinks: everything written to fd 1 since the case began; syslog sink: one line per syslog() call
+void listStream(int k, SinkSlot &s) {
+    std::vector<std::string> files;
+    if (s.kind == "syslog") {
+        std::string data; bool bad = false;
+        { std::lock_guard<std::mutex> lk(ip::mx);
+          for (auto &m : ip::sys_msgs) { if (m.first != 6 /* LOG_INFO */) bad = true; data += m.second; data += '\n'; } }
+        if (bad) data += "wrong-priority";      // shows up as a partial / damaged line
+        if (!data.empty()) files.push_back(data);
+    } else {
+        fflush(stdout);
+        std::string data = slurp(g_cap_path);
+        if (!data.empty()) files.push_back(data);
+    }
+    emitListing(k, files);
 }
 
 bool slotOf(const std::string &w, size_t &k) {
@@ -275,20 +374,20 @@ int main() {
     while (std::getline(std::cin, line)) {
         auto w = vh::words(line);
         if (w.empty()) continue;
-        if (w[0] == "case") { beginCase(); std::cout << line << std::endl; continue; }
+        if (w[0] == "case") { beginCase(); OUT << line << std::endl; continue; }
         const std::string &op = w[0];
         uint64_t n = 0; size_t k = 0; int64_t lv = 0;
         if (op == "max" && w.size() == 2 && w[1].size() <= 9 && vh::to_u64(w[1], n) && n <= 200000) {
-            LogSetMaxLength(n); std::cout << "P max\n";
+            LogSetMaxLength(n); OUT << "P max\n";
         } else if (op == "sink" && w.size() == 2 && w[1] == "rec") {
             SinkSlot s; s.rec.reset(new RecSink); s.rec->enable();
             g_sinks.push_back(std::move(s));
-            std::cout << "P sink " << g_sinks.size() << " rec\n";
+            OUT << "P sink " << g_sinks.size() << " rec\n";
         } else if (op == "sink" && w.size() == 7 && w[1] == "file") {
             uint64_t v[5]; bool ok = true;
             for (int i = 0; i < 5; ++i) ok = ok && w[2 + i].size() <= 9 && vh::to_u64(w[2 + i], v[i]);
             if (!ok || v[1] == 0 || v[2] == 0 || v[2] > v[3] || v[4] == 0 || v[1] > 1000000 || v[3] > 64 || v[4] > 1000 || g_sinks.size() >= 6) {
-                std::cout << "bad-op\n";
+                OUT << "bad-op\n";
             } else {
                 SinkSlot s; s.is_file = true; s.file.reset(new tbox::log::AsyncFileSink);
                 tbox::log::AsyncSink::Config cfg; cfg.buff_size = v[1]; cfg.buff_min_num = v[2]; cfg.buff_max_num = v[3]; cfg.interval = v[4];
@@ -296,23 +395,23 @@ int main() {
                 s.file->setConfig(cfg); s.file->setFilePath(s.dir); s.file->setFilePrefix("p"); s.file->setFileMaxSize(v[0]);
                 s.file->enable();
                 g_sinks.push_back(std::move(s));
-                std::cout << "P sink " << g_sinks.size() << " file\n";
+                OUT << "P sink " << g_sinks.size() << " file\n";
             }
         } else if (op == "lvl" && w.size() == 4 && slotOf(w[1], k) && w[3].size() <= 9 && vh::to_i64(w[3], lv) && (w[2] == "*" || nameOk(w[2], false))) {
             if (w[2] == "*") g_sinks[k - 1].base()->setLevel((int)lv); else g_sinks[k - 1].base()->setLevel(w[2], (int)lv);
-            std::cout << "P lvl\n";
+            OUT << "P lvl\n";
         } else if (op == "unset" && w.size() == 3 && slotOf(w[1], k) && nameOk(w[2], false)) {
-            g_sinks[k - 1].base()->unsetLevel(w[2]); std::cout << "P unset\n";
+            g_sinks[k - 1].base()->unsetLevel(w[2]); OUT << "P unset\n";
         } else if (op == "on" && w.size() == 2 && slotOf(w[1], k)) {
-            bool r = g_sinks[k - 1].base()->enable(); std::cout << "P on " << k << ' ' << (r ? 1 : 0) << "\n";
+            bool r = g_sinks[k - 1].base()->enable(); OUT << "P on " << k << ' ' << (r ? 1 : 0) << "\n";
         } else if (op == "off" && w.size() == 2 && slotOf(w[1], k)) {
             g_sinks[k - 1].base()->disable();
             // everything logged before disable() must be on disk NOW: read the directory right away
-            if (g_sinks[k - 1].is_file) listFiles((int)k, g_sinks[k - 1]); else std::cout << "P off " << k << "\n";
+            if (g_sinks[k - 1].is_file) listFiles((int)k, g_sinks[k - 1]); else OUT << "P off " << k << "\n";
         } else if (op == "run" && w.size() >= 2 && w[1].size() <= 2 && vh::to_u64(w[1], n) && n >= 1 && n <= 8 && w.size() <= 402) {
             int T = (int)n; std::vector<std::vector<Msg>> per(T); bool ok = true;
             for (size_t i = 2; i < w.size() && ok; ++i) { Msg m; ok = parseMsg(w[i], T, m); if (ok) per[m.t].push_back(m); }
-            if (!ok) { std::cout << "bad-op\n"; std::cout.flush(); continue; }
+            if (!ok) { OUT << "bad-op\n"; OUT.flush(); continue; }
             int run = g_run++;
             for (auto &s : g_sinks) if (s.rec) s.rec->got.clear();
             g_raw.clear();
@@ -324,15 +423,15 @@ int main() {
                 g_done = 0; g_go = run + 1; g_cv.notify_all();
                 g_cv.wait(lk, [T] { return g_done == T; });       // all finished logging
             }
-            for (auto &r : g_raw) std::cout << "R 0 " << tagOf(r.tid) << ' ' << r.level << ' ' << fields(r) << "\n";
+            for (auto &r : g_raw) OUT << "R 0 " << tagOf(r.tid) << ' ' << r.level << ' ' << fields(r) << "\n";
             for (size_t i = 0; i < g_sinks.size(); ++i)
                 if (g_sinks[i].rec)
-                    for (auto &r : g_sinks[i].rec->got) std::cout << "R " << (i + 1) << ' ' << tagOf(r.tid) << ' ' << r.level << ' ' << fields(r) << "\n";
-            std::cout << "P run " << g_raw.size() << "\n";
+                    for (auto &r : g_sinks[i].rec->got) OUT << "R " << (i + 1) << ' ' << tagOf(r.tid) << ' ' << r.level << ' ' << fields(r) << "\n";
+            OUT << "P run " << g_raw.size() << "\n";
         } else {
-            std::cout << "bad-op\n";
+            OUT << "bad-op\n";
         }
-        std::cout.flush();
+        OUT.flush();
     }
     endCase();
     return 0;
